@@ -90,7 +90,16 @@ def evaluate(sdir, props):
     try:
         for p in props:
             t0 = time.time()
+            seed_used = 1
             rc, out = sh('./check %s --tier quick' % p, cwd=V, timeout=3000)
+            if rc == 0:
+                # not caught with the default seed: say so, and try two more seeds (the generators are
+                # random; which cases a run contains depends on the seed)
+                for sd in (2, 3):
+                    rc2, out2 = sh('VERIF_SEED=%d ./check %s --tier quick' % (sd, p), cwd=V, timeout=3000)
+                    if rc2 == 1:
+                        rc, out, seed_used = rc2, out2, sd
+                        break
             lines = [l for l in out.splitlines() if l.startswith(('VIOLATION', 'OK ', 'KNOWN-FINDING', 'build error'))]
             detail = ''
             m = re.search(r'replay=(\S+)', out)
@@ -98,8 +107,8 @@ def evaluate(sdir, props):
                 d = json.load(open(m.group(1)))
                 detail = (d.get('verdict') or '; '.join(b['what'] + ': ' + b['detail'][:300] for b in d.get('broken', [])))[:600]
             caught = rc == 1 and any(l.startswith('VIOLATION') for l in lines)
-            results[p] = dict(exit=rc, caught=caught, lines=lines[:4], detail=detail, wall_s=round(time.time() - t0, 1))
-            print(os.path.basename(sdir), p, 'CAUGHT' if caught else 'MISSED(exit %d)' % rc, detail[:200])
+            results[p] = dict(exit=rc, caught=caught, seed=seed_used, lines=lines[:4], detail=detail, wall_s=round(time.time() - t0, 1))
+            print(os.path.basename(sdir), p, ('CAUGHT' + ('' if seed_used == 1 else ' (seed %d, missed with seed 1)' % seed_used)) if caught else 'MISSED(exit %d)' % rc, detail[:200])
     finally:
         sh('git -C %s checkout -- .' % REPO)
     json.dump(results, open(os.path.join(sdir, 'result.json'), 'w'), indent=1)
